@@ -21,6 +21,10 @@ func VerifSetListeners(f func([]net.Listener) []net.Listener) { simhook.Listener
 // knob (simulation harness only).
 func VerifSetReadWindow(f func(blockLength, v int32) int32) { simhook.ReadWindowFunc = f }
 
+// VerifSetBlockLength replaces the delta block length chosen for a file, a
+// tuning knob (simulation harness only).
+func VerifSetBlockLength(f func(fileLen int64, v int32) int32) { simhook.BlockLengthFunc = f }
+
 // VerifRelaxLandlock makes the daemon's landlock restriction a no-op for the
 // whole file system: landlock is process-wide and irreversible, and the
 // simulation runs many daemons in one worker process.
